@@ -107,8 +107,16 @@ func (s *SessionStore) setSessionCookie(rw http.ResponseWriter, req *http.Reques
 	if err != nil {
 		return err
 	}
+	set := map[string]struct{}{}
 	for _, c := range cookies {
 		http.SetCookie(rw, c)
+		set[c.Name] = struct{}{}
+	}
+	// expire the cookies of an earlier save that used another layout
+	for _, c := range req.Cookies() {
+		if _, ok := set[c.Name]; !ok && s.isSessionCookieName(c.Name) {
+			http.SetCookie(rw, s.makeCookie(req, c.Name, "", time.Hour*-1))
+		}
 	}
 	return nil
 }
